@@ -233,6 +233,9 @@ func (c *Decoder) decodeInteger(frame *Frame) (*ast.Integer, error) {
 		return nil, errors.WithStack(err)
 	}
 
+	if len(buf) < 8 {
+		return nil, &DecodeError{original: fmt.Errorf("INTEGER_VALUE frame is too short: %d bytes", len(buf))}
+	}
 	v := binary.BigEndian.Uint64(buf[:8])
 	integer := &ast.Integer{
 		Value: int64(v),
@@ -253,6 +256,9 @@ func (c *Decoder) decodeFloat(frame *Frame) (*ast.Float, error) {
 		return nil, errors.WithStack(err)
 	}
 
+	if len(buf) < 8 {
+		return nil, &DecodeError{original: fmt.Errorf("FLOAT_VALUE frame is too short: %d bytes", len(buf))}
+	}
 	bits := binary.BigEndian.Uint64(buf[:8])
 	float := &ast.Float{
 		Value: math.Float64frombits(bits),
@@ -273,6 +279,9 @@ func (c *Decoder) decodeBoolean(frame *Frame) (*ast.Boolean, error) {
 		return nil, errors.WithStack(err)
 	}
 
+	if len(buf) < 1 {
+		return nil, &DecodeError{original: fmt.Errorf("BOOL_VALUE frame is empty")}
+	}
 	return &ast.Boolean{
 		Value: buf[0] == 0x01,
 	}, nil
